@@ -12,6 +12,7 @@ import (
 	"encoding/json"
 	"fmt"
 	"os"
+	"sort"
 	"strings"
 	"time"
 
@@ -111,6 +112,7 @@ var nodes int
 func build(path []event) (*wld, string, string) {
 	w := &wld{n: nodes, proposed: map[string]bool{}, preCrash: map[uint64]sim.Disk{}}
 	w.World = sim.NewWorld(nodes, func(n *sim.Node) sim.App { return &recorder{node: n, w: w} })
+	w.Strangers = []uint64{9} // the cluster is bigger than the group
 	for i := 1; i <= nodes; i++ {
 		w.Start(uint64(i))
 	}
@@ -364,6 +366,19 @@ func converge(w *wld) (string, string) {
 	if len(w.Violations) > 0 {
 		return w.Violations[0].Key, "during the fair suffix: " + w.Violations[0].Desc
 	}
+	// nobody proposed a membership change: the group the leader runs is the group that was started
+	for _, n := range w.Nodes {
+		if st, ok := w.Status(n.ID); ok && st.RaftState == etcdRaft.StateLeader {
+			var members []uint64
+			for id := range st.Progress {
+				members = append(members, id)
+			}
+			sort.Slice(members, func(i, j int) bool { return members[i] < members[j] })
+			if fmt.Sprint(members) != fmt.Sprint(w.Peers) {
+				return "group-membership-changed-by-itself", fmt.Sprintf("no membership change was ever proposed; after the fair suffix the leader (node %d) runs the group with members %v, started with %v", n.ID, members, w.Peers)
+			}
+		}
+	}
 	ref := ""
 	for i, n := range w.Nodes {
 		d := n.App.Digest()
@@ -450,6 +465,15 @@ func directed() map[string][]event {
 	h["every-replica-restarts-after-a-snapshot"] = append(append([]event{}, base...),
 		event{Kind: "snapshot", Node: 1}, event{Kind: "snapshot", Node: 2}, event{Kind: "snapshot", Node: 3},
 		event{Kind: "propose", Node: 1, Arg: 2}, event{Kind: "drain"},
+		event{Kind: "crash", Node: 1}, event{Kind: "crash", Node: 2}, event{Kind: "crash", Node: 3})
+	// restart after a compaction, compact again, restart again: the second snapshot is taken by a process that never
+	// applied a membership change itself (they are all behind its first snapshot)
+	h["two-lives-two-snapshots"] = append(append([]event{}, base...),
+		event{Kind: "snapshot", Node: 1}, event{Kind: "snapshot", Node: 2}, event{Kind: "snapshot", Node: 3},
+		event{Kind: "crash", Node: 1}, event{Kind: "crash", Node: 2}, event{Kind: "crash", Node: 3},
+		event{Kind: "restart", Node: 1}, event{Kind: "restart", Node: 2}, event{Kind: "restart", Node: 3},
+		event{Kind: "timeout", Node: 1}, event{Kind: "drain"}, event{Kind: "propose", Node: 1, Arg: 2}, event{Kind: "drain"},
+		event{Kind: "snapshot", Node: 1}, event{Kind: "snapshot", Node: 2}, event{Kind: "snapshot", Node: 3},
 		event{Kind: "crash", Node: 1}, event{Kind: "crash", Node: 2}, event{Kind: "crash", Node: 3})
 	return h
 }
